@@ -717,3 +717,19 @@ Proof.
   unfold current in Hcur. replace (i <? 0) with false in Hcur by lia. rewrite He in Hcur. injection Hcur as ->.
   apply (proj2 (take_next_entry ents (snd st) i en _ Hh Hi He)). exact Hnil.
 Qed.
+
+(* ---- a failed attempt IS reported: the converse of "last-valid moves only after a failure" ---- *)
+Lemma failed_attempt_advances_last_valid n c g p o :
+  attempt_failed o = true -> 0 <= c < n ->
+  switch SelLastValid n (Some c) (attempt_failed o) g p = (Some ((c + 1) mod n), negb (n =? 1)).
+Proof.
+  intros Hf Hc. rewrite Hf. unfold switch, stay. replace (n <=? 0) with false by lia.
+  cbn [is_some negb andb orb]. change (SelLastValid =? SelLastValid) with true.
+  change (SelLastValid =? SelSemiLastValid) with false. change (SelLastValid =? SelSemiRandom) with false.
+  change (SelLastValid =? SelSemiRoundRobin) with false. change (SelLastValid =? SelRandom) with false.
+  cbn [andb orb]. rewrite rr_advance_in by lia. rewrite <- succ_mod_mod by lia. reflexivity.
+Qed.
+
+Lemma expected_flags_spec outs k o :
+  nth_error outs k = Some o -> nth_error (expected_flags outs) k = Some (fst o || snd o).
+Proof. intros H. unfold expected_flags. rewrite nth_error_map, H. reflexivity. Qed.
